@@ -296,6 +296,19 @@ def bcast_vec_check(ctx, c, outs):
         if np.abs(out[i] - e).max() / scale > 1e-12:
             return (f"(R*v)[{i}] = {out[i].tolist()} but the element-wise product of R[..] (improper={bool(IA[i])}) and v[..] is "
                     f"{e.tolist()} (shapes {sa} x {sb})")
+    # an improper rotation acts as its proper part followed by inversion: what kind of object comes back (class, phase,
+    # coordinate format of crystal vectors) must be the same as for the proper parts
+    from orix.crystal_map import Phase
+    m = Mi(xyz=np.array(v.data, copy=True), phase=Phase(point_group="m-3m"))
+    m.coordinate_format = "hkl"
+    Rp = R(np.array(R1.data, copy=True))
+    got, ref = R1 * m, Rp * m
+    if type(got) is not type(ref) or getattr(got, "coordinate_format", None) != getattr(ref, "coordinate_format", None) \
+            or (getattr(got, "phase", None) is None) != (getattr(ref, "phase", None) is None):
+        return (f"Rotation * Miller returns {type(got).__name__} (format {getattr(got, 'coordinate_format', None)}, phase "
+                f"{'kept' if getattr(got, 'phase', None) is not None else 'lost'}) for improper flags {R1.improper.reshape(-1).tolist()} "
+                f"but {type(ref).__name__} (format {getattr(ref, 'coordinate_format', None)}, phase "
+                f"{'kept' if getattr(ref, 'phase', None) is not None else 'lost'}) for the proper parts")
     return None
 
 
